@@ -13,6 +13,8 @@ Purely syntactic (DESIGN.md 2.2), so it reacts to exactly the edits C02's measur
   yield / yield from                                                       -> yield
   self.m(…) / X.__m(…) / X._m(…) with m a (non-listed) method of a class of the same module: m's skeleton is spliced in
   everything else is skipped; nesting is kept; statement order and (approximately) evaluation order are kept.
+  The body of `if pid[...] != <fresh identifier>:` (the after-fork branch of MmapedValue, property C09) is not part of the
+  skeleton: threads of one process never take it.
 
 `name = <shared>` makes `name` an alias (iterating it is iterating the shared object); `name = <copy of shared>` does not.
 """
@@ -208,6 +210,10 @@ class Walker:
         if isinstance(s, (ast.Return, ast.Expr)):
             return self.expr(s.value) if s.value is not None else []
         if isinstance(s, (ast.If, ast.While)):
+            if isinstance(s, ast.If) and self.fork_guard(s.test):
+                # `if pid['value'] != actual_pid:` — the branch taken after a fork() (property C09); threads of ONE
+                # process never take it, so only the test's reads belong to the C02 skeleton
+                return self.expr(s.test) + self.block(s.orelse)
             return self.expr(s.test) + self.block(s.body) + self.block(s.orelse)
         if isinstance(s, ast.Try):
             out = self.block(s.body)
@@ -220,6 +226,11 @@ class Walker:
                           ast.Import, ast.ImportFrom, ast.Global, ast.Nonlocal, ast.Assert)):
             return []
         raise Fail('statement kind %s not understood in %s' % (type(s).__name__, self.cls))
+
+    def fork_guard(self, test):
+        return (self.closure and isinstance(test, ast.Compare) and len(test.ops) == 1
+                and isinstance(test.ops[0], ast.NotEq)
+                and any(isinstance(n, ast.Name) and n.id == 'pid' for n in ast.walk(test)))
 
     def target_shared(self, t):
         x = self.shared_of(t)
